@@ -1114,6 +1114,33 @@ def m_binary_search_by(it, callee, args, m):
     return Enum("Err", 1, [usize(base + (1 if c == "Less" else 0))])
 
 
+def m_binary_search(it, callee, args, m):
+    """<[int]>::binary_search(&x): core's halving loop with the elements' own order (decided by forking)"""
+    sl, x = as_slice(args[0]), deref(args[1])
+    size = len(sl)
+    if size == 0:
+        return Enum("Err", 1, [usize(0)])
+    base = 0
+
+    def cmp_at(i):
+        e = sl.vec.elems[sl.lo + i].v
+        if key_lt(it, e, x):
+            return "Less"
+        if key_lt(it, x, e):
+            return "Greater"
+        return "Equal"
+    while size > 1:
+        half = size // 2
+        mid = base + half
+        if cmp_at(mid) != "Greater":
+            base = mid
+        size -= half
+    c = cmp_at(base)
+    if c == "Equal":
+        return Enum("Ok", 0, [usize(base)])
+    return Enum("Err", 1, [usize(base + (1 if c == "Less" else 0))])
+
+
 def m_len_utf16(it, callee, args, m):
     c = deref(args[0])
     return Int(z3.If(z3.UGE(c.t, 0x10000), z3.BitVecVal(2, 64), z3.BitVecVal(1, 64)))
@@ -1383,24 +1410,43 @@ def m_is_alphanumeric(it, callee, args, m):
     return z3.If(ascii_, exact, fresh_bool("is_alphanumeric"))
 
 
+def latin1_exact(t):
+    """code points on which the case models below are exact: ASCII, and the Latin-1 letters except ss-sharp / y-diaeresis / the
+    multiplication and division signs (their case mappings leave Latin-1 or are not 1:1)"""
+    return z3.Or(z3.ULE(t, 0x7F), z3.And(z3.UGE(t, 0xC0), z3.ULE(t, 0xFE), t != 0xD7, t != 0xDF, t != 0xF7))
+
+
+def latin1_is_upper(t):
+    return z3.Or(z3.And(z3.UGE(t, 65), z3.ULE(t, 90)), z3.And(z3.UGE(t, 0xC0), z3.ULE(t, 0xDE), t != 0xD7))
+
+
+def latin1_is_lower(t):
+    return z3.Or(z3.And(z3.UGE(t, 97), z3.ULE(t, 122)), z3.And(z3.UGE(t, 0xE0), z3.ULE(t, 0xFE), t != 0xF7))
+
+
 def m_is_lowercase(it, callee, args, m):
     c = deref(args[0])
-    return z3.If(z3.ULE(c.t, 0x7F), char_in(c, "a", "z"), fresh_bool("is_lowercase"))
+    return z3.If(latin1_exact(c.t), latin1_is_lower(c.t), fresh_bool("is_lowercase"))
 
 
 def m_is_uppercase(it, callee, args, m):
     c = deref(args[0])
-    return z3.If(z3.ULE(c.t, 0x7F), char_in(c, "A", "Z"), fresh_bool("is_uppercase"))
+    return z3.If(latin1_exact(c.t), latin1_is_upper(c.t), fresh_bool("is_uppercase"))
 
 
 def m_to_lowercase(it, callee, args, m):
-    """char::to_lowercase / to_uppercase: exact on ASCII (one char); the Unicode special-casing tables are not
-    modelled, so a path on which the char may be non-ASCII is inconclusive"""
+    """char::to_lowercase / to_uppercase: exact on ASCII and on the Latin-1 letters with 1:1 mappings inside Latin-1 (one char,
+    +-0x20); the rest of the Unicode special-casing tables is not modelled, so a path on which the char may lie outside that
+    set is inconclusive"""
     c = deref(args[0])
-    if not it.ctx.branch(z3.ULE(c.t, 0x7F)):
-        raise Unsupported("char::to_lowercase/to_uppercase of a non-ASCII char (Unicode case tables are not modelled)")
-    f = ascii_lower if callee.endswith("to_lowercase") else ascii_upper
-    return SeqIter([Int(f(c), 32, False)])
+    dom = latin1_exact(c.t)
+    if not it.ctx.valid(dom)[0] and not it.ctx.branch(dom):
+        raise Unsupported("char::to_lowercase/to_uppercase outside ASCII / Latin-1 letters (Unicode case tables are not modelled)")
+    if callee.endswith("to_lowercase"):
+        r = z3.If(latin1_is_upper(c.t), c.t + 32, c.t)
+    else:
+        r = z3.If(latin1_is_lower(c.t), c.t - 32, c.t)
+    return SeqIter([Int(r, 32, False)])
 
 
 def m_cow_slice(it, callee, args, m):
@@ -2006,13 +2052,14 @@ def m_vec_dedup_by_key(it, callee, args, m):
 
 
 def m_str_to_lowercase(it, callee, args, m):
-    """str::to_lowercase: exact on ASCII; non-ASCII characters are not modelled"""
+    """str::to_lowercase: exact on ASCII and the Latin-1 letters with 1:1 case mappings (see latin1_exact)"""
     src = deref(args[0])
     out = []
     for c in src.chars:
-        if not it.ctx.branch(z3.ULE(c.t, 0x7F)):
-            raise Unsupported("str::to_lowercase of a non-ASCII char")
-        out.append(Int(ascii_lower(c), 32, False))
+        dom = latin1_exact(c.t)
+        if not it.ctx.valid(dom)[0] and not it.ctx.branch(dom):
+            raise Unsupported("str::to_lowercase outside ASCII / Latin-1 letters")
+        out.append(Int(z3.If(latin1_is_upper(c.t), c.t + 32, c.t), 32, False))
     return StringObj(out)
 
 
@@ -2053,6 +2100,41 @@ def m_vec_truncate(it, callee, args, m):
     return ()
 
 
+def m_vec_insert(it, callee, args, m):
+    """Vec::insert(index, value): index concretised by forking (panics beyond len)"""
+    v = deref(args[0])
+    n = len(v.elems)
+    inb = z3.ULE(args[1].t, z3.BitVecVal(n, 64))
+    ok, model = it.ctx.valid(inb)
+    if not ok:
+        it.panics.append(("insertion index out of bounds", "Vec::insert", model))
+        if not it.ctx.branch(inb):
+            raise PathEnd()
+    k = it.ctx.choose(args[1].t, list(range(n + 1)))
+    v.elems.insert(k, Cell(args[2]))
+    return ()
+
+
+def m_vec_dedup(it, callee, args, m):
+    """Vec::dedup: consecutive equal elements are collapsed"""
+    v = deref(args[0])
+    kept = []
+    for c in list(v.elems):
+        if kept and val_eq(it, kept[-1].v, c.v):
+            continue
+        kept.append(c)
+    v.elems = kept
+    return ()
+
+
+def m_vec_extend_by_value(it, callee, args, m):
+    v = deref(args[0])
+    src = args[1]
+    items = [c.v for c in src.elems] if isinstance(src, VecObj) else drain(to_iter(src), it)
+    v.elems.extend(Cell(x) for x in items)
+    return ()
+
+
 def m_vec_resize(it, callee, args, m):
     """Vec::resize(new_len, value): new_len must be concrete on the path (<= 64; forks otherwise)"""
     v = deref(args[0])
@@ -2066,6 +2148,11 @@ def m_vec_resize(it, callee, args, m):
 
 IT = r"(?:<.* as (?:Iterator|DoubleEndedIterator|ExactSizeIterator|IntoIterator)>|Iterator|DoubleEndedIterator)"
 MODELS = [
+    (r"^Result::<.*>::is_ok$", lambda it, c, a, m: z3.BoolVal(deref(a[0]).variant == "Ok")),
+    (r"^Result::<.*>::is_err$", lambda it, c, a, m: z3.BoolVal(deref(a[0]).variant == "Err")),
+    (r"^Vec::<.*>::insert$", m_vec_insert),
+    (r"^Vec::<.*>::dedup$", m_vec_dedup),
+    (r"^core::slice::<impl \[(u8|u16|u32|u64|usize|i32|i64)\]>::binary_search$", m_binary_search),
     (r"^<Cow<'_, (?!\[)[\w:]+> as Deref>::deref$", m_cow_deref),
     (r"^(std::ops::|core::ops::)?Range::<.*>::contains::<", m_range_contains),
     (r"^Vec::<.*>::resize$", m_vec_resize),
